@@ -279,6 +279,35 @@ def run(ctx, load):
     check_container_hash(P, ctx)
     check_defaults(P, ctx)
     check_memswap(P, ctx)
+    # assign onto a container that already holds elements yields the source's value: evaluated on small instances (Array: every old
+    # element destructed, the store re-reserved for the new element size, every item of the source assigned in order; Table / Tree:
+    # cleared, retyped and re-inserted)
+    from . import seqmodel, absmodel
+    from .rules_c03 import check_assign_rebuilds
+    rule = 'C10.assign-yields-the-source'
+    fn = P.fn(P.slot('Array', 'Assign', 'assign'))
+    ctx.fn(fn)
+    badv, _r, unsup_, ncase_ = seqmodel.list_ops(P, 'Array')['assign']
+    ctx.stats['paths'] += ncase_
+    if unsup_ and not badv:
+        ctx.undecided(rule, 'Array_Assign', site(fn), 'leaves the evaluated fragment: ' + unsup_)
+    else:
+        ctx.check(badv is None, rule, 'Array_Assign', site(fn), 'on arrays of 0..3 elements with and without spare capacity, from sources of 0..3 items of a smaller, equal or larger element '
+                  'size (with len/get or a cursor only): the old elements are destructed once, every slot written lies inside what was reserved for the new element size, the items are assigned in order',
+                  [badv] if badv else None)
+    check_assign_rebuilds(P, ctx, 'Tree', 'Tree_Clear', 'Tree_Set', rule)
+    check_assign_rebuilds(P, ctx, 'Table', 'Table_Clear', 'Table_Set', rule)
+    ctx.floor(rule, 5)
+    # a removal from a Tree moves the predecessor's entry into the removed node: the moved value must arrive whole, or a tree that was
+    # built with a removal differs from an equal one built without
+    from .rules_c05 import tree_pred_copy_extent
+    fn = P.fn('Tree_Rem')
+    g = P.cfg(fn)
+    mc = [n for (n, c) in g.nodes_calling('memcpy')]
+    why = tree_pred_copy_extent(P, fn, g, mc) if mc else True
+    ctx.check(why is True, 'C10.history-independent', 'Tree_Rem:predecessor-copy', site(fn), 'the predecessor\'s whole payload (both headers, key and value) replaces the removed entry\'s',
+              [why] if why is not True else None)
+    ctx.floor('C10.history-independent', 1)
     # List: hash, copy and assign read the count, eq follows the links — the two must not drift apart
     from .rules_c04 import check_list_count
     check_list_count(P, ctx, rule='C10.count-matches-elements')
@@ -296,14 +325,8 @@ def run(ctx, load):
     ctx.floor('C10.eq-is-value-equality', 12)
     # per-type length-exact hashes
     rule = 'C10.length-exact'
-    fn = P.fn(P.slot('Type', 'Hash', 'hash'))
-    N = util.Norm(P, fn, expand_locals=True, keep={'Type_Builtin_Name'})
-    cs = [c for c, _ in ir.all_calls(fn['body']) if ir.callee_name(c) == 'hash_data']
-    ok = len(cs) == 1
-    if ok:
-        a0, a1 = N.canon(cs[0][2][0]), N.canon(cs[0][2][1])
-        ok = a1 == ir.canon(('call', ('func', 'strlen'), (a0,))) and a0 == ir.canon(('call', ('func', 'Type_Builtin_Name'), (('param', 'self', 0),)))
-    ctx.check(ok, rule, 'Type_Hash', site(fn), 'a type hashes exactly the bytes of its name')
+    from . import evals
+    evals.report_type_cmp(P, ctx, rule, site)
     fn = P.fn(P.slot('String', 'Hash', 'hash'))
     N = util.Norm(P, fn, expand_locals=True)
     cs = [c for c, _ in ir.all_calls(fn['body']) if ir.callee_name(c) == 'hash_data']
